@@ -2,7 +2,7 @@
 from engine.runner import mk_case
 
 U = "Union[int, bool, None, str]"
-DOC = "{'x': u1, 'xs': [u1, 5], 'ref': r1, 'lo': u2, 'hi': 10, 'allowed': [r1, 7, 'q'], 'm': {'k': r1, 'j': 2}, 'n': 2, 'w': 'ab'}"
+DOC = "{'e': [], 'em': {}, 'runs': [{'tags': []}, {'tags': []}], 'x': u1, 'xs': [u1, 5], 'ref': r1, 'lo': u2, 'hi': 10, 'allowed': [r1, 7, 'q'], 'm': {'k': r1, 'j': 2}, 'n': 2, 'w': 'ab'}"
 
 
 def BOUNDS(ctx):
@@ -71,6 +71,10 @@ CASES = [
     ("root.in_kwargs", "('m',)", "Value.items_contain(j=DataPath('n'), k=DataPath().length())", f"Value.items_contain(j={lit(P_N)}, k=ref_get((), doc, 'length'))", []),
     ("root.next_to_path", "('x',)", "Value.in_range(DataPath('lo'), DataPath().length())", f"Value.in_range({lit(P_LO)}, ref_get((), doc, 'length'))", [], "0 <= 9 - u2 <= 3"),
     ("root.in_tree", "('x',)", "Value.less_than(DataPath().length()) | Value.equal_to(DataPath('ref'))", f"Value.less_than(ref_get((), doc, 'length')) | Value.equal_to({lit(P_REF)})", []),
+    ("mod.first.selects_empty_list", "('e',)", "Value.equal_to(DataPath('runs', ListValue(), 'tags').first())", "Value.equal_to(ref_get((('prim', 'runs'), ('list', NULL), ('prim', 'tags')), doc, None, 'first'))", []),
+    ("mod.last.selects_empty_list", "('e',)", "Value.not_equal_to(DataPath('runs', ListValue(), 'tags').last())", "Value.not_equal_to(ref_get((('prim', 'runs'), ('list', NULL), ('prim', 'tags')), doc, None, 'last'))", []),
+    ("mod.single.selects_empty_list", "('e',)", "Value.in_([DataPath(MapValue(key='e')).single(), r1])", "Value.in_([ref_get((('map', K('equal_to', 'e')),), doc)[0], r1])", []),
+    ("mod.first.selects_empty_map", "('em',)", "Value.equal_to(DataPath(MapValue(key='em')).first())", "Value.equal_to({})", []),
     ("combined", "('x',)", "Value.greater_than(DataPath('lo')) & (Value.less_than(DataPath('hi')) | Value.equal_to(DataPath('ref')))",
      f"Value.greater_than({lit(P_LO)}) & (Value.less_than({lit(P_HI)}) | Value.equal_to({lit(P_REF)}))", []),
 ]
